@@ -427,6 +427,8 @@ func (x *Exec) step(fr *Frame, st *State, in ssa.Instruction) {
 		base := x.val(fr, st, n.X)
 		st0 := n.X.Type().Underlying().(*types.Pointer).Elem()
 		switch b := base.(type) {
+		case ElemPtr:
+			fr.regs[n] = ElemPtr{Ref: b.Ref, Idx: b.Idx, Elem: b.Elem, Path: append(append([]int(nil), b.Path...), n.Field)}
 		case CellPtr:
 			fr.regs[n] = CellPtr{C: b.C, Path: append(append([]int(nil), b.Path...), n.Field)}
 		case *Term:
